@@ -43,7 +43,8 @@ TwinRaw == /\ IsEvent("twinraw") /\ started
 BridgeEv ==
     /\ IsEvent("bridge") /\ started
     /\ E.line = LineFrom(E.line, 0)                         \* exactly one line was taken from the port
-    /\ IF E.res = "panic" THEN TRUE                         \* a crash inside the bus is C12's finding: no verdict here
+    /\ IF E.res = "panic" THEN E.bus_entered                \* a crash inside the bus is C12's finding: no verdict here;
+                                                            \* a crash before the bus was reached is the bridge failing on a line
        ELSE IF E.write_fault THEN E.res = "comm"             \* the port refused the write: a communication error
                                   /\ (E.decodable => E.forwarded = <<E.direct_msg>>)
        ELSE IF ~E.decodable
